@@ -664,12 +664,12 @@ class C11(Prop):
 
     def cases(self, ctx):
         rng = ctx.rng
-        nh = 300 if ctx.tier == "quick" else 3000
-        nf = 120 if ctx.tier == "quick" else 1200
+        nh = 700 if ctx.tier == "quick" else 4000
+        nf = 240 if ctx.tier == "quick" else 1500
         out = [self.hist_case(rng, i, ctx.tier) for i in range(nh)]
         out += self.fit_cases(ctx, nf)
         nfit = len(out) - nh
-        out += self.binned_cases(ctx, 30 if ctx.tier == "quick" else 300)
+        out += self.binned_cases(ctx, 60 if ctx.tier == "quick" else 300)
         self._dist = {"hist_cases": nh, "fit_cases": nfit, "binned_fit_cases": len(out) - nh - nfit}
         return out
 
